@@ -456,12 +456,15 @@ class Runner:
         self.found = {}          # class -> [(history lines, index, expected, impl)]
         self.dis = []
         self.histories = 0
+        self.bad = 0             # histories with a violation; the run is cut short once there are plenty
 
     def run(self, histories, batch_lines=150000):
         """Executes the histories (each starts with `reset`) packed into long
         streams; after a crash the stream is resumed at the next history."""
         batch, size = [], 0
         for h in histories:
+            if self.bad >= 30:
+                return
             batch.append(h); size += len(h)
             if size >= batch_lines:
                 self._run_batch(batch); batch, size = [], 0
@@ -469,7 +472,7 @@ class Runner:
             self._run_batch(batch)
 
     def _run_batch(self, hs):
-        while hs:
+        while hs and self.bad < 30:
             flat, starts = [], []
             for h in hs:
                 starts.append(len(flat)); flat += h
@@ -491,6 +494,7 @@ class Runner:
                 j = judge_history(h, im)
                 if j:
                     i, exp, cls = j
+                    self.bad += 1
                     self.found.setdefault(cls, [])
                     if len(self.found[cls]) < 3:
                         self.found[cls].append((h[: i + 1], i, exp, im[i]))
